@@ -109,10 +109,15 @@ def run_graph(graph, dvals, pseed):
   return judge(go, graph, dvals)
 
 
-def judge(go, graph, dvals):
+def judge(go, graph, dvals, retry=None):
+  """retry: a function that redoes the work in a FRESH engine (default: go itself, which then must be fresh); a
+  timeout is reported only if the retry under a much longer limit times out too."""
   exp, _cyc = graph_expected(graph, dvals)
   try:
-    got = limited(go)
+    try:
+      got = limited(go)
+    except Timeout:
+      got = limited(retry or go, 90)
   except Timeout:
     return 'internal', 'recalculation did not terminate within the time limit'
   except Exception as x:
@@ -157,26 +162,38 @@ def search_graphs(ctx):
     search_graphs4(ctx, dvals)
 
 
+def _fresh_steps(g0, g1, dvals, pseed):
+  """Fresh engine holding graph g0, then one ModifyColumn bundle to g1; returns (engine, observed values)."""
+  e, _ = G.new_doc()
+  if pseed is not None:
+    ST.inject_order(e, K2.node_priority(pseed))
+  p0, p1 = graph_prog(g0), graph_prog(g1)
+  G.apply(e, [ST.table_action(p0)])
+  G.apply(e, [ST.rows_action(dvals, [1] * len(dvals))])
+  bundle = [['ModifyColumn', ST.TABLE, c, {'formula': ST.py_formula(p1[c])}] for c in p1 if p1[c] != p0[c]]
+  if bundle:
+    G.apply(e, bundle)
+  return e, observed(e, list(p1))
+
+
 def _graph4_block(args):
   """One block of consecutive 4-column graphs in one long-lived engine; returns (cyclic flags, violations)."""
   b0, block, pseed, dvals = args
   graphs = list(itertools.islice(all_graphs(4), b0, b0 + block))
-  e, _ = G.new_doc()
-  if pseed is not None:
-    ST.inject_order(e, K2.node_priority(pseed))
-  prev = graph_prog(graphs[0])
-  G.apply(e, [ST.table_action(prev)])
-  G.apply(e, [ST.rows_action(dvals, [1] * len(dvals))])
-  last = graphs[0]
+  eng = [_fresh_steps(graphs[0], graphs[0], dvals, pseed)[0]]
+  prev, last = graph_prog(graphs[0]), graphs[0]
   flags, viols = [], []
   for graph in graphs:
     prog = graph_prog(graph)
     bundle = [['ModifyColumn', ST.TABLE, c, {'formula': ST.py_formula(prog[c])}] for c in prog if prog[c] != prev[c]]
     def go(bundle=bundle, prog=prog):
       if bundle:
-        G.apply(e, bundle)
-      return observed(e, list(prog))
-    bad = judge(go, graph, dvals)
+        G.apply(eng[0], bundle)
+      return observed(eng[0], list(prog))
+    def retry(last=last, graph=graph):
+      eng[0], got = _fresh_steps(last, graph, dvals, pseed)   # the interrupted engine is abandoned
+      return got
+    bad = judge(go, graph, dvals, retry=retry)
     flags.append(graph_expected(graph, dvals)[1])
     if bad:
       viols.append((bad[0], bad[1] + ' (after ModifyColumn steps from the previous graph)',
@@ -184,6 +201,11 @@ def _graph4_block(args):
                      'pseed': pseed}))
       if len(viols) > 3:
         break
+      if bad[0] == 'internal':
+        try:
+          eng[0] = limited(lambda: _fresh_steps(graph, graph, dvals, pseed)[0], 90)
+        except Exception:
+          break
     prev, last = prog, graph
   return b0, flags, viols
 
@@ -280,7 +302,7 @@ def run_prog(w):
     G.apply(e, [ST.rows_action(d, r)])
     return observed(e, list(prog))
   try:
-    got = limited(go)
+    got = ST.limited2(go)
   except Timeout:
     return 'internal', 'recalculation did not terminate within the time limit'
   except Exception as x:
@@ -357,7 +379,7 @@ def run_lookup(w):
         return '; '.join(G.diff_snapshots(a, b)[:3])
     return None
   try:
-    diff = limited(go)
+    diff = ST.limited2(go)
   except Timeout:
     return 'internal', 'recalculation did not terminate within the time limit'
   except Exception as x:
@@ -394,18 +416,7 @@ def replay(ctx, w):
     bad = run_graph(tuple(tuple(x) for x in w['graph']), w['d'], w.get('pseed'))
   elif s == 'graphsteps':
     g0, g1 = [tuple(tuple(x) for x in g) for g in w['graphs']]
-    def go():
-      e, _ = G.new_doc()
-      if w.get('pseed') is not None:
-        ST.inject_order(e, K2.node_priority(w['pseed']))
-      p0, p1 = graph_prog(g0), graph_prog(g1)
-      G.apply(e, [ST.table_action(p0)])
-      G.apply(e, [ST.rows_action(w['d'], [1] * len(w['d']))])
-      bundle = [['ModifyColumn', ST.TABLE, c, {'formula': ST.py_formula(p1[c])}] for c in p1 if p1[c] != p0[c]]
-      if bundle:
-        G.apply(e, bundle)
-      return observed(e, list(p1))
-    bad = judge(go, g1, w['d'])
+    bad = judge(lambda: _fresh_steps(g0, g1, w['d'], w.get('pseed'))[1], g1, w['d'])
   elif s == 'prog':
     bad = run_prog(w)
   elif s == 'lookup':
